@@ -119,6 +119,9 @@ func scanLabels(p *symbolScanner) scanStateFn {
 		return p.consume(scanLabels)
 	case tokComment:
 		fallthrough
+	case tokColon:
+		// a colon after a label does not change what the line is
+		fallthrough
 	case tokNewline:
 		return p.consume(scanLabels)
 	case tokEOF:
